@@ -2,6 +2,7 @@ package q
 
 import (
 	"fmt"
+	"math"
 	"reflect"
 	"strconv"
 	"strings"
@@ -73,8 +74,10 @@ func binaryFloats(left, right string) (float64, float64, bool) {
 	floatLeft, errLeft := strconv.ParseFloat(left, 64)
 	floatRight, errRight := strconv.ParseFloat(right, 64)
 
-	// Compare as numbers.
-	if errLeft == nil && errRight == nil {
+	// Compare as numbers. NaN is not a number that can be compared: it is not
+	// even equal to itself, so "NaN" has to be treated as text.
+	if errLeft == nil && errRight == nil &&
+		!math.IsNaN(floatLeft) && !math.IsNaN(floatRight) {
 		return floatLeft, floatRight, true
 	}
 
